@@ -141,7 +141,8 @@ def pad_table(T, k):
         elif c["name"] == T["attr"]:
             add = ["pad a b"] * k
         else:
-            filler = {"int": 0, "float": 0.5, "bool": False, "obj": "p",
+            filler = {"int": 0, "float": 0.5, "bool": False, "obj": "p", "strdtype": "p",
+                      "nastring": "p",
                       "datetime": "2001-01-01"}[c["kind"]]
             add = [filler] * k
         T2["columns"].append({"name": c["name"], "kind": c["kind"], "values": vals + add})
